@@ -44,6 +44,13 @@ C06_CLAIM = ("Apalache: along a line of ANY length with values of any size the c
              "the directional integral (sum times cell length), the mean times the extent equals the integral, and sums / integrals / "
              "cumulative integrals are linear in the field (spec/C06Core.tla, inductive invariant of `take the next cell`; %d of %d "
              "obligations, reported, not relied on)")
+# spec/C05Core.tla: why the identities and the exactness on quadratics follow from "textbook combinations of directional differences"
+C05_OBLIGATIONS = _inits("C05_MixedDifferencesCommute", "C05_DifferenceLinear", "C05_DivCurlVanishes", "C05_CurlGradVanishes",
+                         "C05_LaplaceExactOnQuadratics", "C05_GradExactOnQuadratics")
+C05_CLAIM = ("Apalache: three-point differences along two different axes commute for ANY coefficients and values, a difference is linear, "
+             "hence div(curl v) and every component of curl(grad f) cancel term by term when each component is differenced along its own "
+             "axis, and the second / first central differences of a quadratic polynomial in three variables are its exact partial "
+             "derivatives at every position for every cell size (spec/C05Core.tla; %d of %d obligations, reported, not relied on)")
 # spec/C11Core.tla: where the frequencies of an axis of n cells sit before and after the shift
 C11_OBLIGATIONS = _inits("C11_FrequencyCount", "C11_FrequencyRange", "C11_ShiftSortsFrequencies", "C11_UnshiftInvertsShift", "C11_ZeroFrequencyCell")
 C11_CLAIM = ("Apalache: for an axis of ANY length n the frequencies -(n div 2) .. (n-1) div 2 occur once each, the shift sorts them (cell p of "
